@@ -563,6 +563,9 @@ func c10removal(p *core.Prog, u *ssa.Function) (bool, string) {
 		}
 		return false
 	}
+	if core.InLoop(app.Block()) {
+		return false, "the scan goes on after the list was rebuilt: the indices of the old list are applied to the new one (a neighbour of a second occurrence is removed instead of it)"
+	}
 	if !matchEdge(app.Block()) {
 		return false, "the list is rebuilt without the element at i on a path where list[i] is not known to equal the subscription being removed: another subscriber is dropped"
 	}
